@@ -507,6 +507,15 @@ def gen_cls(rng: Any, depth: int, hashable: bool = False, nfields: int | None = 
         r = rng.random()
         if r < 0.15 and not hashable:
             f["transient"] = True
+            if rng.random() < 0.6:
+                # scratch space: a mutable container built by a default_factory (list / dict / a dataclass holding a list)
+                inner_scalar = {"k": rng.choice(["int", "str", "bytes"])}
+                a = rng.choice([
+                    {"k": "list", "a": inner_scalar},
+                    {"k": "map", "key": {"k": "str"}, "val": inner_scalar},
+                    {"k": "dc", "name": s2j(f"C{next(_counter)}"), "fields": [{"name": s2j("seen"), "transient": False, "a": {"k": "list", "a": inner_scalar}}]},
+                ])
+                f["a"] = a
             f["default"] = gen_value(rng, a, small=True)
         elif r < 0.35:
             f["default"] = gen_value(rng, a, small=True)
